@@ -71,7 +71,7 @@ mod verif_codecs {
     }
 
     // ------------------------------------------------------------------ C09
-    //@defaults unit=U09.4 props=C09 tier=quick level=bounded bound="one contour of 1 point, every i16 coordinate pair, on-curve flag symbolic" timeout=900
+    //@defaults unit=U09.4 props=C09 tier=thorough level=bounded bound="one contour of 1 point, every i16 coordinate pair, on-curve flag symbolic" timeout=2400
     //@harness fns=SimpleGlyph::write_into,SimpleGlyph::compute_point_deltas,flag_and_delta,RepeatableFlag::iter_from_flags,read_fonts::SimpleGlyph::points,read_fonts::SimpleGlyph::read_points_fast note="the first point's delta is its coordinate, so every i16 delta value (skip / short +- / long encodings and their boundaries) is exercised on both axes"
     #[kani::proof]
     #[kani::unwind(6)]
